@@ -208,9 +208,12 @@ def classes_and_prosody(chk, cc):
                 r2 = prosodic_string(list(p), _output=out_mode)
                 if len(r2) != len(p) or not set(r2) <= alpha:
                     fails.append(('prosodic_string(%r, %r) = %r' % (p, out_mode, r2),))
-            w = prosodic_weights(real)
-            if len(w) != len(p):
-                fails.append(('prosodic_weights(%r) has %d elements' % (real, len(w)),))
+            try:
+                w = prosodic_weights(real)
+                if len(w) != len(p):
+                    fails.append(('prosodic_weights(%r) has %d elements' % (real, len(w)),))
+            except Exception as ex:  # noqa
+                fails.append(('prosodic_weights(%r) (the prosodic string of the profile %r) raised %s: %s - no weight per element' % (real, p, type(ex).__name__, ex),))
     # token-level: classes, sonority, prosody, weights, class2tokens
     lines, metas = [], []
     for _ in range(chk.n(4500, 160000)):
@@ -243,8 +246,12 @@ def classes_and_prosody(chk, cc):
             fails.append(('tokens2class(%r, %s) = %r' % (toks, mname, cls),))
         if mname == 'art':
             pro = prosodic_string(toks)
-            if len(pro) != len(toks) or len(prosodic_weights(pro)) != len(toks):
-                fails.append(('prosodic_string/weights(%r) length differs from the tokens' % (toks,),))
+            try:
+                nw = len(prosodic_weights(pro))
+            except Exception as ex:  # noqa
+                nw = 'raised %s: %s' % (type(ex).__name__, ex)
+            if len(pro) != len(toks) or nw != len(toks):
+                fails.append(('prosodic_string(%r) = %r, prosodic_weights of it: %r - not one element per token' % (toks, pro, nw),))
             # aligned class string -> tokens
             alm = []
             for c in cls:
